@@ -25,7 +25,7 @@ ID = 'C33'
 SRC = ['hail/python/hail/expr/types.py', 'hail/python/hail/utils/byte_reader.py', 'hail/python/hail/utils/struct.py',
        'hail/hail/src/is/hail/types/encoded/EType.scala']
 COQ_PROPS = 'theories/HailEncoding/Props_C33.v'
-READY = False
+READY = True
 META = dict(
     design_ref='§5.F C33',
     technique='Coq proofs by nested induction over Hail types about a hand model of the Python encoder/decoder (tied by a differential '
@@ -208,16 +208,25 @@ def read_evalue(x):
 
 
 def _model(ctx, cases, impl, junk):
-    """model on the value in the iteration order the implementation actually encoded"""
+    """model on the value in the iteration order the implementation actually encoded.
+    The engine-decoder model is evaluated with the HAND table Engine.etype_of on the model's own bytes and only for
+    in-domain cases: there theorem C33_layout guarantees termination with small lengths.  (Evaluating a decoder model on
+    foreign bytes or with a mutated table can read a garbage length and build an astronomically large unary number in
+    vm_compute; the regenerated table is tied by the lemma GenEq.generated_etype_of_eq instead.)"""
+    import resource
     exprs = []
     for c, r in zip(cases, impl):
         T, V = G.coq_type(c['t']), G.coq_value(c['t'], r['built'])
-        # NB: the engine model is evaluated on the MODEL's bytes (equal to the real ones whenever the first correspondence
-        # holds); feeding arbitrary foreign bytes to vm_compute could build astronomically large unary lengths.
-        real = '(encode ' + T + ' ' + V + ')'
-        exprs.append(f'(wf_ty {T} && wt_enc {T} {V} && negb (is_na {V}), encode {T} {V}, decode {T} (encode {T} {V} ++ {_blist(junk)}), '
-                     f'edecode (C33.Gen.etype_of {T}) ({real} ++ {_blist(junk)}), erase {T} {V})')
-    return coq_eval(ctx, HEADER, exprs, shard=120)
+        exprs.append(f'(let ok := wf_ty {T} && wt_enc {T} {V} && negb (is_na {V}) in if ok then '
+                     f'(ok, encode {T} {V}, decode {T} (encode {T} {V} ++ {_blist(junk)}), '
+                     f'edecode (etype_of {T}) (encode {T} {V} ++ {_blist(junk)}), erase {T} {V}) '
+                     f'else (ok, [], None, None, EVInt 0))')
+    old = resource.getrlimit(resource.RLIMIT_AS)
+    try:
+        resource.setrlimit(resource.RLIMIT_AS, (6 * 2**30, old[1]))      # inherited by the coqc children
+        return coq_eval(ctx, HEADER, exprs, shard=120, timeout=300)
+    finally:
+        resource.setrlimit(resource.RLIMIT_AS, old)
 
 
 def correspond(ctx):
